@@ -371,8 +371,12 @@ fn run(args: &[String]) -> i32 {
         wall,
         total.inconclusive.len()
     );
-    for (s, t) in &known_seen {
-        let _ = writeln!(o, "KNOWN-FINDING: property={} {} {}", prop, s, t);
+    // one line per listed finding (a listed finding may cover several observed signatures)
+    for k in known.iter().filter(|k| k.prop == prop) {
+        let seen: Vec<&String> = total.viols.keys().filter(|sig| known.iter().find(|x| x.prop == prop && sig_matches(&x.sig, sig)).map(|x| x.sig == k.sig).unwrap_or(false)).collect();
+        if let Some(first) = seen.first() {
+            let _ = writeln!(o, "KNOWN-FINDING: property={} {} [{} observed signature(s), e.g. {}] {}", prop, k.sig, seen.len(), first, k.text);
+        }
     }
     for s in &total.inconclusive {
         let _ = writeln!(o, "INCONCLUSIVE: {}", s);
